@@ -52,7 +52,10 @@ Definition proc0 : proc := mkProc None 0.
 
 Inductive op :=
 | OOpen
-| OUpdate (b : list (N * N))            (* one batch; its last entry has index lastApplied + |b| *)
+| OUpdate (gap : N) (b : list (N * N))  (* one batch; its last entry has raft index lastApplied + gap + |b|.
+                                           gap = number of raft indexes up to that entry which never reach the state
+                                           machine (no-op, membership-change and session entries): indexes handed to
+                                           Update are strictly increasing, not contiguous, and of any magnitude *)
 | OSync
 | ORecover (dlt : N) (c : kvmap)        (* snapshot of a foreign replica taken at index lastApplied + dlt *)
 | OClose.
@@ -109,11 +112,11 @@ Definition plan_open (s : fs) (fresh : N) : plan_t :=
     | _ => (pre ++ [SRemoveF FUpd], None)                     (* "corrupted content" *)
     end.
 
-Definition plan_update (b : list (N * N)) (s : fs) (p : proc) : plan_t :=
+Definition plan_update (gap : N) (b : list (N * N)) (s : fs) (p : proc) : plan_t :=
   match p_db p with
   | None => ([], Some p)
   | Some d =>
-      let i := p_last p + nlen b in
+      let i := p_last p + gap + nlen b in
       ([SStBatch d true (i, apply_batch b (snd (st_mem (f_st s d))))], Some (mkProc (Some d) i))
   end.
 
@@ -159,7 +162,7 @@ Definition plan (o : op) (s : fs) (p : proc) (fresh : N) : plan_t :=
   if in_contract o p then
     match o with
     | OOpen => plan_open s fresh
-    | OUpdate b => plan_update b s p
+    | OUpdate g b => plan_update g b s p
     | OSync => plan_sync s p
     | ORecover dlt c => plan_recover dlt c s p fresh
     | OClose => plan_close p
@@ -230,7 +233,7 @@ Definition spec_op (o : op) (x : sstate) : sstate :=
   let '(L, up) := x in
   match o, up with
   | OOpen, false => (L, true)
-  | OUpdate b, true => ((fst L + nlen b, apply_batch b (snd L)), true)
+  | OUpdate g b, true => ((fst L + g + nlen b, apply_batch b (snd L)), true)
   | ORecover dlt c, true => ((fst L + dlt, c), true)
   | OClose, true => (L, false)
   | _, _ => x                      (* Sync; calls outside the API contract *)
@@ -249,18 +252,19 @@ Inductive spec_reach : list event -> sstate -> Prop :=
 (** The same specification with the history made explicit: [h_snap] is the last installed snapshot
     (index, contents; the empty store at index 0 before the first one), [h_ups] the update batches that
     took effect since then, in order.  The state of the machine is "the updates on top of the snapshot";
-    its index is the snapshot index plus the number of entries of those updates. *)
-Definition batch := list (N * N).
+    its index is the snapshot index plus the entries and index gaps of those updates, i.e. the raft index of
+    the last entry applied. *)
+Definition batch := (N * list (N * N))%type.      (* index gap, entries *)
 Record hist := mkHist { h_snap : kvstate; h_ups : list batch; h_up : bool }.
 Definition log_state (snap : kvstate) (ups : list batch) : kvstate :=
-  fold_left (fun L b => (fst L + nlen b, apply_batch b (snd L))) ups snap.
+  fold_left (fun L gb => (fst L + fst gb + nlen (snd gb), apply_batch (snd gb) (snd L))) ups snap.
 Definition hist_state (h : hist) : kvstate := log_state (h_snap h) (h_ups h).
 Definition hist0 : hist := mkHist kv_init [] false.
 
 Definition hist_op (o : op) (h : hist) : hist :=
   match o, h_up h with
   | OOpen, false => mkHist (h_snap h) (h_ups h) true
-  | OUpdate b, true => mkHist (h_snap h) (h_ups h ++ [b]) true
+  | OUpdate g b, true => mkHist (h_snap h) (h_ups h ++ [(g, b)]) true
   | ORecover dlt c, true => mkHist (fst (hist_state h) + dlt, c) [] true
   | OClose, true => mkHist (h_snap h) (h_ups h) false
   | _, _ => h                      (* Sync; calls outside the API contract *)
